@@ -428,6 +428,16 @@ class Evaluator:
 evaluate = Evaluator()
 
 
+def _evaluate_single(node, context, types=None):
+    """Evaluate a node that must yield a single selector (not a sequence)."""
+    rval = evaluate(node, context=context)
+    if not isinstance(rval, types or Selector):
+        raise node.location.syntax_error(
+            "Expected a single selector here, not a sequence"
+        )
+    return rval
+
+
 @evaluate.register_action("_ ( X ) _")
 def make_group(node, _1, element, _2, context):
     element = evaluate(element, context=context)
@@ -436,8 +446,8 @@ def make_group(node, _1, element, _2, context):
 
 @evaluate.register_action("X > X")
 def make_nested_imm(node, parent, child, context):
-    parent = evaluate(parent, context=context)
-    child = evaluate(child, context=context)
+    parent = _evaluate_single(parent, context=context)
+    child = _evaluate_single(child, context=context)
     parent = _guarantee_call(parent, context=context)
     if isinstance(child, Element):
         child = child.with_focus()
@@ -498,7 +508,7 @@ def make_dollar(node, _, name, context):
 @evaluate.register_action("X ( _ ) _")
 @evaluate.register_action("X ( X ) _")
 def make_call_capture(node, fn, names, _, context):
-    fn = evaluate(fn, context=context)
+    fn = _evaluate_single(fn, context=context)
     names = evaluate(names, context="incall") if names else []
     names = names if isinstance(names, list) else [names]
     fn = _guarantee_call(fn, context=context)
@@ -520,7 +530,7 @@ def make_sequence(node, a, b, context):
 
 @evaluate.register_action("X as X")
 def make_as(node, element, name, context):
-    element = evaluate(element, context=context)
+    element = _evaluate_single(element, context=context)
     name = evaluate(name, context=context)
     if isinstance(element, Element):
         return element.clone(capture=name.name, tags=element.tags | name.tags)
@@ -536,7 +546,7 @@ def make_as(node, element, name, context):
 
 @evaluate.register_action("X = X")
 def make_equals(node, element, value, context, matchfn=False):
-    element = evaluate(element, context=context)
+    element = _evaluate_single(element, context=context)
     value = value_evaluate(value)
     if matchfn:
         value = VCall(MatchFunction, (value,))
@@ -743,7 +753,7 @@ def parse(x):
         raise opparse.Location(x, "<string>", 0, 0).syntax_error(
             "Empty selector"
         )
-    return evaluate(tree)
+    return _evaluate_single(tree, context="root")
 
 
 def _find_eval_env(s, fr, skip):
